@@ -164,7 +164,16 @@ def run(case, ctx):
 
 
 def run_hist(case, ctx):
+    import contextlib
+    import io
+
     import ginjax.ml as ml
+
+    with contextlib.redirect_stdout(io.StringIO()):  # verbose=1 conditions log on improvement
+        return _run_hist(case, ctx, ml)
+
+
+def _run_hist(case, ctx, ml):
 
     cls = getattr(ml, case["cls"])
     monitored = "train_loss" if case["cls"] == "TrainLoss" else "val_loss"
@@ -176,7 +185,7 @@ def run_hist(case, ctx):
     for L in range(1, case["maxlen"] + 1):
         for hi, hist in enumerate(it.product(LEVELS, repeat=L)):
             n_hist += 1
-            cond = cls(patience=case["patience"], min_delta=case["min_delta"])
+            cond = cls(patience=case["patience"], min_delta=case["min_delta"], verbose=(hi % 2 if case["patience"] == 1 else 0))
             auto = rmisc.PatienceAutomaton(case["patience"], case["min_delta"])
             _mon.register(cond, auto, monitored)
             seq = ([None] if (hi + L) % 2 == 0 else []) + [vals[v] for v in hist]
@@ -212,14 +221,23 @@ def dedup(viols, per=2):
 
 
 def run_epoch(case, ctx):
+    import contextlib
+    import io
+
     import ginjax.ml as ml
+
+    with contextlib.redirect_stdout(io.StringIO()):
+        return _run_epoch(case, ctx, ml)
+
+
+def _run_epoch(case, ctx, ml):
 
     n = case["epochs"]
     _mon.take()
     calls = 0
     for rep in ("float", "jax"):
         vals = make_rep(rep)
-        cond = ml.EpochStop(epochs=n)
+        cond = ml.EpochStop(epochs=n, verbose=(0 if n == 0 else {"float": 2, "jax": 1}[rep]))
         auto = rmisc.EpochAutomaton(n)
         _mon.register(cond, auto, "epoch")
         for e in range(n + 3):
